@@ -15,18 +15,28 @@ def takeFile (ws : List String) : Option ((Text × Option (List Nat)) × List St
   let (segs, ws) ← takeCounted takeNat ws
   pure ((name, if kind = 0 then none else some segs), ws)
 
+/-- `<component>:<object>:<weak 0|1>` -/
+def takeExtRef : List String → Option (ExtRef × List String)
+  | w :: r => match w.splitOn ":" with
+    | [c, o, k] => do pure (⟨← c.toNat?, ← o.toNat?, ← parseBool k⟩, r)
+    | _ => none
+  | [] => none
+
 def takeComponent (ws : List String) : Option (Component × List String) := do
   let (id, ws) ← takeNat ws
   let (loc, ws) ← takeText ws
   let (pref, ws) ← takeText ws
-  let (refs, ws) ← takeCounted takeNat ws
+  let (refs, ws) ← takeCounted takeExtRef ws
   pure (⟨id, loc, pref, refs⟩, ws)
 
 def showNats (l : List Nat) : String := if l.isEmpty then "-" else "+".intercalate (l.map toString)
 
+def showExtRefs (l : List ExtRef) : String :=
+  if l.isEmpty then "-" else "+".intercalate (l.map fun e => s!"{e.component}:{e.object}:{if e.weak then 1 else 0}")
+
 def showStore (st : Store) : String :=
   let files := st.files.map fun f => showText f.1 ++ "=" ++ (match f.2 with | none => "B" | some s => showNats s)
-  let comps := st.components.map fun c => s!"{c.identifier}/{showText c.locator}/{showText c.preferred}/{showNats c.externalRefs}"
+  let comps := st.components.map fun c => s!"{c.identifier}/{showText c.locator}/{showText c.preferred}/{showExtRefs c.externalRefs}"
   s!"max={st.maxId} last={st.lastObjId} ids={showNats st.ids} files={" ".intercalate files} comps={" ".intercalate comps}"
 
 partial def runOps : Store → List String → List String → Option (List String × Store)
@@ -44,6 +54,72 @@ partial def runOps : Store → List String → List String → Option (List Stri
     let (st', r) := createListed st l p
     runOps st' rest (showPyM toString r :: acc)
   | _, _, _ => none
+
+/-! object-graph histories -/
+
+def takeIdText (ws : List String) : Option ((Nat × Text) × List String) := do
+  let (i, ws) ← takeNat ws
+  let (t, ws) ← takeText ws
+  pure ((i, t), ws)
+
+def takeIdNats (ws : List String) : Option ((Nat × List Nat) × List String) := do
+  let (i, ws) ← takeNat ws
+  let (l, ws) ← takeCounted takeNat ws
+  pure ((i, l), ws)
+
+/-- ops: `C <file> <append> <n> <ref>*n` | `M <id> <parent> <locator>` | `E <id> <-|L<location>> <-|component> <weak>` |
+    `A <obj> <tgt>` | `X <obj> <tgt>` | `S <obj> <old> <new>` | `U` | `B <name>` -/
+partial def parseGOps : List String → List GOp → Option (List GOp)
+  | [], acc => some acc.reverse
+  | "C" :: f :: a :: rest, acc => do
+    let f ← parseText f; let a ← parseBool a
+    let (rs, rest) ← takeCounted takeNat rest
+    parseGOps rest (.create f a rs :: acc)
+  | "M" :: i :: p :: l :: rest, acc => do
+    parseGOps rest (.addMeta (← i.toNat?) (← parseText p) (← parseText l) :: acc)
+  | "E" :: i :: l :: c :: w :: rest, acc => do
+    let loc ← if l == "-" then some none else (parseText (l.drop 1).toString).map some
+    let cid ← if c == "-" then some none else c.toNat?.map some
+    parseGOps rest (.extRef (← i.toNat?) loc cid (← parseBool w) :: acc)
+  | "A" :: o :: t :: rest, acc => do parseGOps rest (.addRef (← o.toNat?) (← t.toNat?) :: acc)
+  | "X" :: o :: t :: rest, acc => do parseGOps rest (.clearRef (← o.toNat?) (← t.toNat?) :: acc)
+  | "S" :: o :: a :: b :: rest, acc => do parseGOps rest (.setRef (← o.toNat?) (← a.toNat?) (← b.toNat?) :: acc)
+  | "U" :: rest, acc => parseGOps rest (.update :: acc)
+  | "B" :: n :: rest, acc => do parseGOps rest (.blob (← parseText n) :: acc)
+  | _, _ => none
+
+/-- result of one operation as the real call reports it (only creation / metadata calls have one) -/
+def gopResult (g : GStore) : GOp → Option String
+  | .create f a rs => some (showPyM toString (createG g f a rs).2)
+  | .addMeta i p l => some (showPyM (fun _ => "-") (addComponentMetadata g.toStore i p l).2)
+  | .extRef i l c w => some (showPyM (fun _ => "-") (addComponentReference g.toStore i l c w).2)
+  | .update => match (updateFileStore g).2 with | .ok _ => none | .error e => some (showExc e)
+  | _ => none
+
+/-- one pass: results, final state, and `targetsExistEx` for no exemption / for the exemption of identifier 0
+    (`targetsExistEx ex g ops` is the conjunction of `opTargetsOk ex` along the run) -/
+def runGOps : GStore → List GOp → List String → Bool → Bool → List String × GStore × Bool × Bool
+  | g, [], acc, t, t0 => (acc.reverse, g, t, t0)
+  | g, op :: r, acc, t, t0 =>
+    runGOps (stepG g op) r (match gopResult g op with | some s => s :: acc | none => acc)
+      (t && opTargetsOk (fun _ => false) g op) (t0 && opTargetsOk (· == 0) g op)
+
+def sortNats (l : List Nat) : List Nat := l.mergeSort (fun a b => decide (a ≤ b))
+def sortStrs (l : List String) : List String := l.mergeSort (fun a b => !(decide (b < a)))
+
+def showIdLists (d : List (Nat × List Nat)) : String :=
+  let d := (d.filter (fun e => !e.2.isEmpty)).mergeSort (fun a b => decide (a.1 ≤ b.1))
+  if d.isEmpty then "-" else " ".intercalate (d.map fun e => s!"{e.1}:{showNats (sortNats e.2)}")
+
+/-- the package a save writes now: archive inventory, components, per archive the references of the written message and the
+    header's object_references (sorted; directory entries of the source zip are not members of a saved package) -/
+def showG (g : GStore) : String :=
+  let files := g.files.filterMap fun f => match f.2 with
+    | none => if f.1.getLast? == some '/' then none else some (showText f.1 ++ "=B")
+    | some s => some (showText f.1 ++ "=" ++ showNats s)
+  let comps := g.components.map fun c => s!"{c.identifier}/{showText c.locator}/{showText c.preferred}/{showExtRefs c.externalRefs}"
+  let written := g.ids.map fun i => (i, g.writtenOf i)
+  s!"last={g.lastObjId} ids={showNats (sortNats g.ids)} files={" ".intercalate (sortStrs files)} comps={" ".intercalate comps} refs={showIdLists written} hdr={showIdLists g.hdr}"
 
 def showGeom (t : TileGeom) : String := s!"{t.tileid}:{t.rowStart}:{t.numRows}"
 
@@ -64,6 +140,21 @@ def handleOStore : List String → Option String
     | .ok st =>
       let (outs, st') ← runOps st rest []
       pure (";".intercalate outs ++ " | " ++ showStore st')
+  | "ghist" :: last :: rest => do
+    let last ← last.toNat?
+    let (ids, rest) ← takeCounted takeNat rest
+    let (files, rest) ← takeCounted takeFile rest
+    let (comps, rest) ← takeCounted takeComponent rest
+    let (fileOf, rest) ← takeCounted takeIdText rest
+    let (refs, rest) ← takeCounted takeIdNats rest
+    let (hdr, rest) ← takeCounted takeIdNats rest
+    let ops ← parseGOps rest []
+    match openG ids last files comps fileOf refs hdr with
+    | .error e => pure (showExc e)
+    | .ok g =>
+      let (outs, g', t, t0) := runGOps g ops [] true true
+      let b := fun (x : Bool) => if x then "1" else "0"
+      pure (s!"{if outs.isEmpty then "-" else ";".intercalate outs} | filed={b (wellFiled g)}/{b (wellFiled g')} targets={b t}/{b t0} | {showG g'}")
   | ["tiles", pinned, n] => do
     let n ← n.toNat?; let pinned ← parseBool pinned
     let ts := if pinned then tilesPinned n else tiles n
